@@ -19,7 +19,7 @@ func init() {
 		Level: "fault_enumeration",
 		Rule: "operation sequences (biased towards binding many fids: attach, walks onto new fids, in-place walks, opens, creates of files and directories, clunks, removes) are first run fault-free on SFileSys(instrumented FS) to number the FS calls 1..N; " +
 			"then EVERY single call index is failed in both flavours (error, nil result), sampled pairs of indices are failed, and Session.Stop is issued after EVERY prefix of the sequence. Oracle: the release monitor inside the FS (each handle has a unique id and a state: " +
-			"double release, use after release/consume — also through its File or directory iterator, use of a partial-walk placeholder), the fid-table hook after every call (nothing released stays bound), the reference model for which handle receives which release call, and after Stop: every handle that was bound is released by exactly one Clunk, the hook table holds no entry, no handle that was handed out for binding is still live; a call not returned at quiescence is a hang. A second family queues an operation B on a fid's lock while operation A on the same fid is parked inside the file system on one of the release paths (clunk, remove, in-place walk, create, mkdir whose OpenDir fails) and lets the same monitors judge what B then does to the entry. " +
+			"double release, use after release/consume — also through its File or directory iterator, use of a partial-walk placeholder), the fid-table hook after every call (nothing released stays bound), the reference model for which handle receives which release call, and after Stop: every handle that was bound is released by exactly one Clunk, the hook table holds no entry, no handle that was handed out for binding is still live; a call not returned at quiescence is a hang. A second family queues an operation B on a fid's lock while operation A on the same fid is parked inside the file system on one of the release paths (clunk, remove, in-place walk, create, mkdir whose OpenDir fails) and lets the same monitors judge what B then does to the entry. A third family reaches Stop through p9p.ServeConn's own shutdown (context cancel, peer EOF, read error, reply-write failure) while handlers are parked inside attach / walk / create and bind their entry after having been cancelled (the scripts and machinery of C11). " +
 			"non-trivial = the sequence bound >= 2 handles and the fault hit a call made while >= 1 handle was bound; distinct by (sequence hash, fault indices, stop point)",
 		Assumptions: []string{
 			"exhaustive over (sequence, single fault index x 2 flavours) and (sequence, stop prefix) for the generated sequences; sequences themselves and fault pairs are sampled",
@@ -29,7 +29,7 @@ func init() {
 		Shards:   shards(8, 16),
 		Timeout:  timeouts(5*time.Minute, 30*time.Minute),
 		MinEvals: 1000,
-		Required: []string{"path:clunk", "path:remove", "path:consumed-by-create", "path:replaced-by-inplace-walk", "path:stop", "single_fault_runs", "pair_fault_runs", "stop_prefix_runs", "faults_that_hit", "queued_pair_runs"},
+		Required: []string{"path:clunk", "path:remove", "path:consumed-by-create", "path:replaced-by-inplace-walk", "path:stop", "single_fault_runs", "pair_fault_runs", "stop_prefix_runs", "faults_that_hit", "queued_pair_runs", "served_shutdown_runs", "entries_bound_after_cancel"},
 		Run:      runC13,
 	})
 }
@@ -222,6 +222,27 @@ func c13Queued(w *mon.W, no int) {
 }
 
 func runC13(w *mon.W) {
+	// stop reached through ServeConn's shutdown while handlers are still in their FS call (and
+	// bind an entry after having been cancelled): the release accounting must hold there too
+	idx := 0
+	for si, script := range c11Scripts() {
+		B, W := c11Record(w, script, si)
+		if B == 0 {
+			continue
+		}
+		for _, beh := range []int{c11SucceedAfterCancel, c11ErrOnCancel} {
+			for _, f := range []c11fault{{"ctx-cancel", W + 1, beh}, {"read-eof", B, beh}, {"read-error", B - 3, beh}, {"write-fail", W + 1, beh}} {
+				for rep := 0; rep < w.Scale(2, 40); rep++ {
+					idx++
+					if w.Mine(idx) {
+						f := f
+						c11Run(w, script, si, &f)
+						w.Count("served_shutdown_runs", 1)
+					}
+				}
+			}
+		}
+	}
 	for i := 0; i < w.Scale(600, 100000); i++ {
 		if w.Mine(i) {
 			c13Queued(w, i)
